@@ -1,6 +1,5 @@
 SPECIFICATION MCSpec
-CONSTANTS MaxDepth = 2
-          SmallN = 6
-          MaxLen = 2
-INVARIANTS ReadBack ExactConsumption AllConsumed ReEncodeIdentical NoStuck TagFirst SelfDelimiting Truncated UnknownTag Complete
+CONSTANTS SmallN = 4
+          MaxLen = 3
+INVARIANTS ReadBack ExactConsumption AllConsumed WireOK ReEncodeIdentical NoStuck TagFirst SelfDelimiting Truncated Complete RTisComposition
 CHECK_DEADLOCK FALSE
